@@ -55,6 +55,7 @@ type Verifier struct {
 	funcsDone    map[string]bool
 	repoDir      string
 	axioms       []axiomText
+	rtypeIDs     map[string]int
 	safetyChecks bool
 }
 
@@ -79,7 +80,7 @@ func loadVerifier(repo string) (*Verifier, error) {
 	prog, spkgs := ssautil.AllPackages(pkgs, ssa.GlobalDebug)
 	prog.Build()
 	v := &Verifier{prog: prog, pkgs: pkgs, spkgs: map[string]*ssa.Package{}, decls: newDecls(), heapSorts: map[string]string{},
-		fnByKey: map[string]*ssa.Function{}, funcsDone: map[string]bool{}, repoDir: repo}
+		fnByKey: map[string]*ssa.Function{}, funcsDone: map[string]bool{}, repoDir: repo, rtypeIDs: map[string]int{}}
 	for i, p := range pkgs {
 		if spkgs[i] != nil {
 			v.spkgs[p.PkgPath] = spkgs[i]
